@@ -157,8 +157,10 @@ func New(config ...Config) fiber.Handler {
 				return cfg.ErrorHandler(c, ErrTokenNotFound)
 			}
 			if cfg.SingleUseToken {
-				// If token is single use, delete it from storage
-				deleteTokenFromStorage(c, extractedToken, cfg, sessionManager, storageManager)
+				// If token is single use, delete it from storage - a token that cannot be consumed is not accepted
+				if err := deleteTokenFromStorage(c, extractedToken, cfg, sessionManager, storageManager); err != nil {
+					return cfg.ErrorHandler(c, err)
+				}
 			} else {
 				token = extractedToken // Token is valid, safe to set it
 			}
@@ -225,12 +227,11 @@ func createOrExtendTokenInStorage(c fiber.Ctx, token string, cfg Config, session
 	}
 }
 
-func deleteTokenFromStorage(c fiber.Ctx, token string, cfg Config, sessionManager *sessionManager, storageManager *storageManager) {
+func deleteTokenFromStorage(c fiber.Ctx, token string, cfg Config, sessionManager *sessionManager, storageManager *storageManager) error {
 	if cfg.Session != nil {
-		sessionManager.delRaw(c)
-	} else {
-		storageManager.delRaw(token)
+		return sessionManager.delRaw(c)
 	}
+	return storageManager.delRaw(token)
 }
 
 // Update CSRF cookie
@@ -269,7 +270,9 @@ func (handler *Handler) DeleteToken(c fiber.Ctx) error {
 		return handler.config.ErrorHandler(c, ErrTokenNotFound)
 	}
 	// Remove the token from storage
-	deleteTokenFromStorage(c, cookieToken, handler.config, handler.sessionManager, handler.storageManager)
+	if err := deleteTokenFromStorage(c, cookieToken, handler.config, handler.sessionManager, handler.storageManager); err != nil {
+		return handler.config.ErrorHandler(c, err)
+	}
 	// Expire the cookie
 	expireCSRFCookie(c, handler.config)
 	return nil
